@@ -16,6 +16,8 @@ def make_km(kind, opts):
     if o.pop('sentinel', False): o['sentinel'] = SENTINEL
     if kind == 'raw': return keymap(**o)
     if kind == 'string': return stringmap(**o)
+    if kind == 'stringr': return stringmap(encoding='repr', **o)
+    if kind == 'stringu': return stringmap(encoding='utf_8', **o)
     if kind == 'pickle': return picklemap(**o)
     if kind == 'picklep': return picklemap(serializer='pickle', **o)
     if kind == 'dill2': return picklemap(serializer='dill', protocol=2, **o)
